@@ -335,7 +335,13 @@ pub struct Worker {
     child: Child,
     stdin: ChildStdin,
     stdout: ChildStdout,
+    // Run requests served. The interpreter under test never frees a closure
+    // stored in the scope it captures (an Arc cycle), so a worker is replaced
+    // after a fixed number of runs to keep its memory bounded.
+    runs: u32,
 }
+
+const WORKER_MAX_RUNS: u32 = 20_000;
 
 static WORKER_OK: OnceLock<bool> = OnceLock::new();
 
@@ -364,7 +370,7 @@ impl Worker {
             .ok()?;
         let stdin = child.stdin.take()?;
         let stdout = child.stdout.take()?;
-        Some(Worker{child, stdin, stdout})
+        Some(Worker{child, stdin, stdout, runs: 0})
     }
 
     fn request(&mut self, op: u8, payload: &[u8], timeout: Duration) -> Result<Vec<u8>, WorkerErr> {
@@ -411,7 +417,10 @@ pub fn worker_request(op: u8, payload: &[u8], timeout: Duration) -> Result<Vec<u
             None => return Err(WorkerErr::Unavailable),
         };
         let r = wk.request(op, payload, timeout);
-        if r.is_err() {
+        if op == 3 {
+            wk.runs += 1;
+        }
+        if r.is_err() || wk.runs >= WORKER_MAX_RUNS {
             *w = None;
         }
         r
